@@ -371,20 +371,22 @@ func scalarLike(v Value) bool {
 }
 
 // mergeValues builds ite(cond, a, b) for two values of identical shape.
-func (it *Interp) mergeValues(cond *Term, a, b Value, hint Sort) Value {
+func (it *Interp) mergeValues(cond *Term, a, b Value, t types.Type) Value {
 	switch x := a.Ref.(type) {
 	case nil, *Term:
 		if a.Ref == nil && b.Ref == nil && a.Bits == b.Bits {
 			return a
 		}
-		s := hint
-		if t, ok := a.Ref.(*Term); ok {
-			s = t.sort
-		} else if t, ok := b.Ref.(*Term); ok {
-			s = t.sort
-		}
-		if s == 0 {
-			panic("mergeValues: unknown sort")
+		var s Sort
+		if tm, ok := a.Ref.(*Term); ok {
+			s = tm.sort
+		} else if tm, ok := b.Ref.(*Term); ok {
+			s = tm.sort
+		} else if t != nil && isScalar(t) {
+			s, _ = scalarSort(t)
+		} else {
+			// two different concrete non-scalars (nil pointers etc.) cannot be merged
+			panic(engineAbort{"unsupported", "merge of distinct non-scalar values under a symbolic index"})
 		}
 		return fromTerm(it.tt.Ite(cond, it.term(a, s), it.term(b, s)))
 	case *Str:
@@ -394,21 +396,30 @@ func (it *Interp) mergeValues(cond *Term, a, b Value, hint Sort) Value {
 		}
 		bs := make([]Value, x.Len())
 		for i := range bs {
-			bs[i] = it.mergeValues(cond, x.At(i), y.At(i), 8)
+			bs[i] = it.mergeValues(cond, x.At(i), y.At(i), types.Typ[types.Uint8])
 		}
 		return mkStrBytes(bs)
 	case *Agg:
 		y := b.Ref.(*Agg)
 		out := &Agg{v: make([]Value, len(x.v))}
 		for i := range out.v {
-			out.v[i] = it.mergeValues(cond, x.v[i], y.v[i], 0)
+			var ft types.Type
+			if t != nil {
+				switch u := t.Underlying().(type) {
+				case *types.Struct:
+					ft = u.Field(i).Type()
+				case *types.Array:
+					ft = u.Elem()
+				}
+			}
+			out.v[i] = it.mergeValues(cond, x.v[i], y.v[i], ft)
 		}
 		return Value{Ref: out}
 	}
 	if a.Ref == b.Ref {
 		return a
 	}
-	panic("mergeValues: incompatible shapes")
+	panic(engineAbort{"unsupported", "merge of incompatible shapes"})
 }
 
 // readSymbolic reads cells[idx] for a symbolic in-range index: the elements
@@ -416,10 +427,6 @@ func (it *Interp) mergeValues(cond *Term, a, b Value, hint Sort) Value {
 func (it *Interp) readSymbolic(n int, at func(int) Value, idx *Term, elemT types.Type) Value {
 	tt := it.tt
 	w := idx.sort
-	var hint Sort
-	if isScalar(elemT) {
-		hint, _ = scalarSort(elemT)
-	}
 	// group by shape
 	type group struct {
 		sig  string
@@ -463,13 +470,43 @@ func (it *Interp) readSymbolic(n int, at func(int) Value, idx *Term, elemT types
 			}
 		}
 	}
-	// merge within the group: runs of equal values become range tests
-	res := vals[chosen.idxs[len(chosen.idxs)-1]]
-	for k := len(chosen.idxs) - 2; k >= 0; k-- {
-		i := chosen.idxs[k]
-		res = it.mergeValues(tt.Eq(idx, tt.Const(w, uint64(i))), vals[i], res, hint)
+	// merge within the group: consecutive members with identical values form a
+	// run selected by one range test (the index is known to be in the group)
+	ids := chosen.idxs
+	last := len(ids) - 1
+	res := vals[ids[last]]
+	k := last
+	for k > 0 && sameValue(vals[ids[k-1]], res) {
+		k--
+	}
+	// ids[k..last] all carry res; walk down the remaining runs
+	for k > 0 {
+		hi := k - 1
+		v := vals[ids[hi]]
+		lo := hi
+		for lo > 0 && sameValue(vals[ids[lo-1]], v) {
+			lo--
+		}
+		// idx <= ids[hi] selects this run or an earlier one
+		res = it.mergeValues(tt.Cmp(OUle, idx, tt.Const(w, uint64(ids[hi]))), v, res, elemT)
+		k = lo
 	}
 	return res
+}
+
+// sameValue reports whether two values are identical concrete scalars or
+// identical concrete strings (cheap syntactic test used for run compression).
+func sameValue(a, b Value) bool {
+	switch x := a.Ref.(type) {
+	case nil:
+		return b.Ref == nil && a.Bits == b.Bits
+	case *Str:
+		y, ok := b.Ref.(*Str)
+		return ok && (x == y || x.Concrete() && y.Concrete() && x.s == y.s)
+	case *Term:
+		return a.Ref == b.Ref
+	}
+	return false
 }
 
 func (it *Interp) indexAddr(ins *ssa.IndexAddr, x, idx Value) Value {
